@@ -3,7 +3,7 @@ _spec = importlib.util.spec_from_file_location("cfg_C03_shared", os.path.join(os
 _m = importlib.util.module_from_spec(_spec); _spec.loader.exec_module(_m)
 _H = dict(_m._HARNESS)
 _H["env"] = {"quick": {"VERIF_SM_N": 120, "VERIF_SM_EVENTS": 60, "VERIF_SM_FORKS": 6},
-             "thorough": {"VERIF_SM_N": 2000, "VERIF_SM_EVENTS": 80, "VERIF_SM_FORKS": 10}}
+             "thorough": {"VERIF_SM_N": 1000, "VERIF_SM_EVENTS": 80, "VERIF_SM_FORKS": 10}}
 
 CONFIG = {
     "props": "props/C07.v",
